@@ -32,11 +32,44 @@ struct cancellation_node {
     bool removed_from_scheduling_queue;
 };
 
+/* Hands queued tasks to the task scheduler and then applies queued cancellations. */
+static void s_process_queues(
+    struct aws_thread_scheduler *scheduler,
+    struct aws_linked_list *scheduling_list,
+    struct aws_linked_list *cancel_list) {
+
+    while (!aws_linked_list_empty(scheduling_list)) {
+        struct aws_linked_list_node *node = aws_linked_list_pop_front(scheduling_list);
+        struct aws_task *task = AWS_CONTAINER_OF(node, struct aws_task, node);
+        if (task->timestamp) {
+            aws_task_scheduler_schedule_future(&scheduler->scheduler, task, task->timestamp);
+        } else {
+            aws_task_scheduler_schedule_now(&scheduler->scheduler, task);
+        }
+    }
+
+    /* now cancel the tasks. */
+    while (!aws_linked_list_empty(cancel_list)) {
+        struct aws_linked_list_node *node = aws_linked_list_pop_front(cancel_list);
+        struct cancellation_node *cancellation_node = AWS_CONTAINER_OF(node, struct cancellation_node, node);
+        struct aws_task *task = cancellation_node->task_to_cancel;
+        /* A cancellation can arrive after its task has already run. Only cancel a task that is still pending,
+         * otherwise its function would be invoked a second time. */
+        if (cancellation_node->removed_from_scheduling_queue || task->abi_extension.scheduled) {
+            aws_task_scheduler_cancel_task(&scheduler->scheduler, task);
+        }
+        aws_mem_release(scheduler->allocator, cancellation_node);
+    }
+}
+
 static void s_destroy_callback(void *arg) {
     struct aws_thread_scheduler *scheduler = arg;
     aws_atomic_store_int(&scheduler->should_exit, 1U);
     aws_condition_variable_notify_all(&scheduler->thread_data.c_var);
     aws_thread_join(&scheduler->thread);
+    /* The thread may have exited without picking up what was queued last, and nobody else can touch the queues any
+     * more. Hand the leftovers over so that the clean up below invokes them as canceled instead of losing them. */
+    s_process_queues(scheduler, &scheduler->thread_data.scheduling_queue, &scheduler->thread_data.cancel_queue);
     aws_task_scheduler_clean_up(&scheduler->scheduler);
     aws_condition_variable_clean_up(&scheduler->thread_data.c_var);
     aws_mutex_clean_up(&scheduler->thread_data.mutex);
@@ -75,28 +108,8 @@ static void s_thread_fn(void *arg) {
         aws_linked_list_swap_contents(&scheduler->thread_data.cancel_queue, &cancel_list_cpy);
         AWS_FATAL_ASSERT(!aws_mutex_unlock(&scheduler->thread_data.mutex) && "mutex unlock failed!");
 
-        while (!aws_linked_list_empty(&list_cpy)) {
-            struct aws_linked_list_node *node = aws_linked_list_pop_front(&list_cpy);
-            struct aws_task *task = AWS_CONTAINER_OF(node, struct aws_task, node);
-            if (task->timestamp) {
-                aws_task_scheduler_schedule_future(&scheduler->scheduler, task, task->timestamp);
-            } else {
-                aws_task_scheduler_schedule_now(&scheduler->scheduler, task);
-            }
-        }
-
-        /* now cancel the tasks. */
-        while (!aws_linked_list_empty(&cancel_list_cpy)) {
-            struct aws_linked_list_node *node = aws_linked_list_pop_front(&cancel_list_cpy);
-            struct cancellation_node *cancellation_node = AWS_CONTAINER_OF(node, struct cancellation_node, node);
-            struct aws_task *task = cancellation_node->task_to_cancel;
-            /* A cancellation can arrive after its task has already run. Only cancel a task that is still pending,
-             * otherwise its function would be invoked a second time. */
-            if (cancellation_node->removed_from_scheduling_queue || task->abi_extension.scheduled) {
-                aws_task_scheduler_cancel_task(&scheduler->scheduler, task);
-            }
-            aws_mem_release(scheduler->allocator, cancellation_node);
-        }
+        /* schedule the new tasks, then cancel the tasks. */
+        s_process_queues(scheduler, &list_cpy, &cancel_list_cpy);
 
         /* now run everything */
         uint64_t current_time = 0;
